@@ -333,7 +333,9 @@ func genCase(t *rapid.T) Case {
 	}
 	view := gen.View(c.Fields)
 	for k := rapid.IntRange(1, 5).Draw(t, "nrec"); k > 0; k-- {
-		c.Recs = append(c.Recs, gen.Record(t, view, maxVar))
+		r := gen.Record(t, view, maxVar)
+		gen.LongPrefixes(t, view, r)
+		c.Recs = append(c.Recs, r)
 	}
 	return c
 }
